@@ -182,11 +182,11 @@ def gen_spec(case):
     return S.rand_spec(case["spec_seed"], zero_bias=zb)
 
 
-def run_case(case, checker=None, pid="C03"):
+def run_case(case, checker=None, pid="C03", nontrivial=None, spec_fn=None):
     from rexmon import drive_async as D
     from rexmon import specs as S
 
-    spec = gen_spec(case)
+    spec = (spec_fn or gen_spec)(case)
     dg = S.digest(spec)
     items, counters, samples = [], {}, []
     wall = case["kind"] == "wall"
@@ -221,7 +221,8 @@ def run_case(case, checker=None, pid="C03"):
         V = (checker or check_record)(r["record"], nodes, stats, wall_clock=wall, own_nonce=700 + ep)
         if m.errors:
             V.append(dict(clause="worker_exception", errors=m.errors[:2]))
-        nontriv = stats.get("msgs", 0) >= 50 and stats.get("not_1to1_conns", 0) >= 1
+        nontriv = nontrivial(stats) if nontrivial else (stats.get("msgs", 0) >= 50 and stats.get("not_1to1_conns", 0) >= 1)
+        stats = {k: v for k, v in stats.items() if isinstance(v, (int, float))}
         for k, v in stats.items():
             counters[k] = counters.get(k, 0) + v
         if V:
